@@ -5,6 +5,7 @@ import (
 	"go/ast"
 	"go/token"
 	"go/types"
+	"sort"
 	"strings"
 )
 
@@ -29,6 +30,16 @@ type LoopRec struct {
 	Notes   []string
 	Bounded string // reason the loop is bounded without a cursor (range, counted)
 	HasExit bool
+	Prog    []*CursorProgress
+	NBack   int
+}
+
+// CursorProgress is the termination argument one cursor variable offers.
+type CursorProgress struct {
+	Var    string
+	Strict bool   // grows by at least 1 on every path back to the loop head
+	Bound  string // why it cannot grow forever (loop condition / verified invariant); empty: unbounded
+	MinWhy string // the path on which growth could not be shown
 }
 
 type CursorStep struct {
@@ -181,6 +192,7 @@ func (in *Interp) assign(st *State, lhs ast.Expr, v Val, tok token.Token, rhs as
 			st.vars[o] = UnkV{l.Name}
 			return
 		}
+		in.curFacts = st.facts
 		st.vars[o] = IntV{in.applyOp(cur.T, iv.T, tok, o.Type())}
 	case *ast.SelectorExpr:
 		p, t, ok := in.selPath(st, l)
@@ -192,6 +204,7 @@ func (in *Interp) assign(st *State, lhs ast.Expr, v Val, tok token.Token, rhs as
 			cur := in.readPath(st, p, t)
 			if ci, ok := cur.(IntV); ok {
 				if iv, ok := v.(IntV); ok {
+					in.curFacts = st.facts
 					nv := IntV{in.applyOp(ci.T, iv.T, tok, t)}
 					st.fields[p] = nv
 					in.recordStore(st, p, tok.String(), rhsText, nv, l.Pos())
@@ -258,6 +271,12 @@ func (in *Interp) applyOp(cur, v *Term, tok token.Token, t types.Type) *Term {
 		return Opq("(" + cur.String() + ")" + strings.TrimSuffix(tok.String(), "=") + "(" + v.String() + ")")
 	}
 	if bits, uns := intBits(t); uns && bits <= 8 && !in.fitsUnsigned(r, bits) {
+		// a counter below a bound of the same type cannot wrap when incremented
+		if ok1, _ := Prove(Const(0), r, in.curFacts); ok1 {
+			if ok2, _ := Prove(r, Const(int64(1)<<uint(bits)-1), in.curFacts); ok2 {
+				return r
+			}
+		}
 		return Wrap(fmt.Sprintf("uint%d", bits), r)
 	}
 	return r
@@ -1275,8 +1294,127 @@ func (in *Interp) execFor(st *State, x *ast.ForStmt, label string) (*State, bool
 			}
 		}
 	}
-	// entry facts about cursors: sym >= entry value when every step is non-negative
-	// is established after the fact; here only the loop condition is assumed.
+	// loop-head hypotheses about the cursors (simultaneous induction): each is
+	// assumed at the head, must hold on entry, and must be re-established on every
+	// back edge; a hypothesis that fails is put on the bad list and ignored by the
+	// prover wherever a copy of it travelled.
+	type hyp struct {
+		o    types.Object
+		kind string // mono: entry <= cursor   le: cursor <= len(P)
+		tag  string
+		fact Fact
+	}
+	var hyps []*hyp
+	for o, sym := range syms {
+		ev, ok := st.vars[o].(IntV)
+		if !ok {
+			continue
+		}
+		hypCounter++
+		h := &hyp{o: o, kind: "mono", tag: fmt.Sprintf("hyp#%d:%s grows from its entry value", hypCounter, o.Name())}
+		h.fact = Fact{L: ev.T, R: sym, Src: h.tag}
+		hyps = append(hyps, h)
+		if in.param != nil || in.paramOf() != nil {
+			lenP := LenOf("P")
+			if okp, _ := Prove(ev.T, lenP, st.facts); okp {
+				hypCounter++
+				h2 := &hyp{o: o, kind: "le", tag: fmt.Sprintf("hyp#%d:%s stays within the input", hypCounter, o.Name())}
+				h2.fact = Fact{L: sym, R: lenP, Src: h2.tag}
+				hyps = append(hyps, h2)
+			}
+		}
+	}
+	// counted loops: `for j := j0; j < B; j++ { …; n += K; … }`
+	var counter types.Object
+	if id, ok := x.Post.(*ast.IncDecStmt); ok && id.Tok == token.INC {
+		if o := identObjOf(in, id.X); o != nil && syms[o] != nil && countAssigns(in, x.Body, o) == 0 {
+			counter = o
+		}
+	}
+	type hyp2 struct {
+		tag   string
+		facts []Fact
+		check func(bs *State) bool
+		after func(res *State)
+	}
+	var hyps2 []*hyp2
+	if counter != nil {
+		jSym := syms[counter]
+		jEntry, _ := st.vars[counter].(IntV)
+		// j <= B for a condition j < B with B not changed by the loop
+		if be, ok := unparen(x.Cond).(*ast.BinaryExpr); ok && be.Op == token.LSS && identObjOf(in, be.X) == counter && jEntry.T != nil {
+			save := in.noSites
+			in.noSites = true
+			B := in.evalInt(body, be.Y)
+			in.noSites = save
+			if !B.HasAtom(func(a *Atom) bool { return a.Kind == "opq" && strings.HasPrefix(a.Path, "loop") }) {
+				if okE, _ := Prove(jEntry.T, B, st.facts); okE {
+					hypCounter++
+					tag := fmt.Sprintf("hyp#%d:counter %s stays at most its bound", hypCounter, counter.Name())
+					h := &hyp2{tag: tag, facts: []Fact{{L: jSym, R: B, Src: tag}}}
+					h.check = func(bs *State) bool {
+						nv, ok := bs.vars[counter].(IntV)
+						if !ok {
+							return false
+						}
+						okc, _ := Prove(nv.T, B, bs.facts)
+						return okc
+					}
+					h.after = func(res *State) {
+						if av, ok := res.vars[counter].(IntV); ok {
+							res.facts = append(res.facts, Fact{L: av.T, R: B, Src: tag})
+						}
+					}
+					hyps2 = append(hyps2, h)
+				}
+			}
+		}
+		// n - K*j is constant for a cursor advanced by the constant K once per iteration
+		if jEntry.T != nil {
+			for o, nSym := range syms {
+				if o == counter {
+					continue
+				}
+				K, ok := constStepOf(in, x.Body, o)
+				nEntry, ok2 := st.vars[o].(IntV)
+				if !ok || !ok2 || K <= 0 {
+					continue
+				}
+				o, nSym, K := o, nSym, K
+				base := nEntry.T.AddScaled(jEntry.T, -K)
+				hypCounter++
+				tag := fmt.Sprintf("hyp#%d:%s advances by %d per step of %s", hypCounter, o.Name(), K, counter.Name())
+				rel := nSym.AddScaled(jSym, -K)
+				h := &hyp2{tag: tag, facts: []Fact{{L: rel, R: base, Src: tag}, {L: base, R: rel, Src: tag}}}
+				h.check = func(bs *State) bool {
+					nv, ok1 := bs.vars[o].(IntV)
+					jv, ok2 := bs.vars[counter].(IntV)
+					if !ok1 || !ok2 {
+						return false
+					}
+					nr := nv.T.AddScaled(jv.T, -K)
+					a, _ := Prove(nr, base, bs.facts)
+					b, _ := Prove(base, nr, bs.facts)
+					return a && b
+				}
+				h.after = func(res *State) {
+					av, ok1 := res.vars[o].(IntV)
+					jv, ok2 := res.vars[counter].(IntV)
+					if ok1 && ok2 {
+						ar := av.T.AddScaled(jv.T, -K)
+						res.facts = append(res.facts, Fact{L: ar, R: base, Src: tag}, Fact{L: base, R: ar, Src: tag})
+					}
+				}
+				hyps2 = append(hyps2, h)
+			}
+		}
+	}
+	for _, h := range hyps {
+		body.facts = append(body.facts, h.fact)
+	}
+	for _, h := range hyps2 {
+		body.facts = append(body.facts, h.facts...)
+	}
 	condSt := body
 	if x.Cond != nil {
 		in.evalCondSites(condSt, x.Cond)
@@ -1313,6 +1451,117 @@ func (in *Interp) execFor(st *State, x *ast.ForStmt, label string) (*State, bool
 		}
 		backStates = append(backStates, s)
 	}
+	// verify the hypotheses on every back edge (to a fixpoint: a proof that used a
+	// hypothesis found bad is redone without it)
+	for round := 0; round < 4; round++ {
+		changed := false
+		for _, h := range hyps {
+			if badHyps[h.tag] {
+				continue
+			}
+			for _, bs := range backStates {
+				nv, ok := bs.vars[h.o].(IntV)
+				holds := ok
+				if ok {
+					if h.kind == "mono" {
+						holds, _ = Prove(syms[h.o], nv.T, bs.facts)
+					} else {
+						holds, _ = Prove(nv.T, LenOf("P"), bs.facts)
+					}
+				}
+				if !holds {
+					badHyps[h.tag] = true
+					changed = true
+					break
+				}
+			}
+		}
+		for _, h := range hyps2 {
+			if badHyps[h.tag] {
+				continue
+			}
+			for _, bs := range backStates {
+				if !h.check(bs) {
+					badHyps[h.tag] = true
+					changed = true
+					break
+				}
+			}
+		}
+		if !changed {
+			break
+		}
+	}
+	lr.NBack = len(backStates)
+	for o, sym := range syms {
+		cp := &CursorProgress{Var: o.Name(), Strict: len(backStates) > 0}
+		for _, bs := range backStates {
+			nv, ok := bs.vars[o].(IntV)
+			grows := false
+			if ok {
+				grows, _ = Prove(sym.AddC(1), nv.T, bs.facts)
+				if !grows {
+					grows, _ = Prove(in.w.ExpandLens(sym.AddC(1), 0), in.w.ExpandLens(nv.T, 0), expandFacts(in.w, bs.facts))
+				}
+			}
+			if !grows {
+				cp.Strict = false
+				if ok {
+					cp.MinWhy = "advance " + nv.T.Sub(sym).String() + " is not provably >= 1"
+				} else {
+					cp.MinWhy = "value at the back edge unknown"
+				}
+				break
+			}
+		}
+		// bounded by the loop condition `o < X` with X unchanged by the loop
+		if x.Cond != nil {
+			var scan func(e ast.Expr)
+			scan = func(e ast.Expr) {
+				be, ok := unparen(e).(*ast.BinaryExpr)
+				if !ok {
+					return
+				}
+				if be.Op == token.LAND {
+					scan(be.X)
+					scan(be.Y)
+					return
+				}
+				if (be.Op == token.LSS || be.Op == token.LEQ) && identObjOf(in, be.X) == o {
+					save := in.noSites
+					in.noSites = true
+					X := in.evalInt(body, be.Y)
+					in.noSites = save
+					if !X.HasAtom(func(a *Atom) bool { return a.Kind == "opq" && strings.HasPrefix(a.Path, "loop") }) {
+						cp.Bound = "loop condition " + in.render(nil, be)
+					}
+				}
+			}
+			scan(x.Cond)
+		}
+		if cp.Bound == "" {
+			for _, h := range hyps {
+				if h.o == o && h.kind == "le" && !badHyps[h.tag] {
+					cp.Bound = "verified invariant: " + o.Name() + " stays within the input"
+				}
+			}
+		}
+		if cp.Bound == "" && len(backStates) > 0 && in.paramOf() != nil {
+			// every iteration that reaches the back edge passed a guard cursor <= len(input)
+			all := true
+			for _, bs := range backStates {
+				if ok, _ := Prove(sym, LenOf("P"), bs.facts); !ok {
+					all = false
+					break
+				}
+			}
+			if all {
+				cp.Bound = "every completed iteration passed a guard " + o.Name() + " <= len(input)"
+			}
+		}
+		lr.Prog = append(lr.Prog, cp)
+	}
+	sort.Slice(lr.Prog, func(i, j int) bool { return lr.Prog[i].Var < lr.Prog[j].Var })
 	for o, s := range syms {
 		cs := &CursorStep{Var: o.Name(), Type: o.Type()}
 		for _, bs := range backStates {
@@ -1335,6 +1584,58 @@ func (in *Interp) execFor(st *State, x *ast.ForStmt, label string) (*State, bool
 	for o := range ints {
 		if _, ok := res.vars[o]; ok {
 			res.vars[o] = IntV{in.freshSym("after:" + o.Name())}
+		}
+	}
+	// what the verified hypotheses give for the value after the loop: the loop is
+	// left at the head (value = head value) or by a break (value at the break)
+	for _, h := range hyps {
+		if badHyps[h.tag] {
+			continue
+		}
+		av, ok := res.vars[h.o].(IntV)
+		if !ok {
+			continue
+		}
+		holds := true
+		for _, b := range breaks {
+			if b.label != "" && b.label != label {
+				continue
+			}
+			bv, ok := b.st.vars[h.o].(IntV)
+			if !ok {
+				holds = false
+				break
+			}
+			var okb bool
+			if h.kind == "mono" {
+				okb, _ = Prove(h.fact.L, bv.T, b.st.facts)
+			} else {
+				okb, _ = Prove(bv.T, LenOf("P"), b.st.facts)
+			}
+			if !okb {
+				holds = false
+				break
+			}
+		}
+		if holds {
+			if h.kind == "mono" {
+				res.facts = append(res.facts, Fact{L: h.fact.L, R: av.T, Src: h.tag})
+			} else {
+				res.facts = append(res.facts, Fact{L: av.T, R: LenOf("P"), Src: h.tag})
+			}
+		}
+	}
+	ownBreak := false
+	for _, b := range breaks {
+		if b.label == "" || b.label == label {
+			ownBreak = true
+		}
+	}
+	if !ownBreak {
+		for _, h := range hyps2 {
+			if !badHyps[h.tag] {
+				h.after(res)
+			}
 		}
 	}
 	for o := range others {
@@ -1384,6 +1685,91 @@ func (in *Interp) execFor(st *State, x *ast.ForStmt, label string) (*State, bool
 	}
 	in.note(x.Pos(), "general for loop: not summarised for size/record rules")
 	return res, false
+}
+
+// expandFacts expands Len atoms of concrete kinds in every fact.
+func expandFacts(w *World, fs []Fact) []Fact {
+	out := make([]Fact, 0, len(fs))
+	for _, f := range fs {
+		out = append(out, Fact{L: w.ExpandLens(f.L, 0), R: w.ExpandLens(f.R, 0), Src: f.Src, Cond: f.Cond})
+	}
+	return out
+}
+
+// ProveX proves A <= B, retrying with Len atoms of concrete kinds expanded.
+func (w *World) ProveX(a, b *Term, facts []Fact) bool {
+	if ok, _ := Prove(a, b, facts); ok {
+		return true
+	}
+	ok, _ := Prove(w.ExpandLens(a, 0), w.ExpandLens(b, 0), expandFacts(w, facts))
+	return ok
+}
+
+func identObjOf(in *Interp, e ast.Expr) types.Object {
+	if id, ok := unparen(e).(*ast.Ident); ok {
+		return in.obj(id)
+	}
+	return nil
+}
+
+// countAssigns counts the statements of body that assign to o.
+func countAssigns(in *Interp, body ast.Node, o types.Object) int {
+	n := 0
+	ast.Inspect(body, func(nd ast.Node) bool {
+		switch x := nd.(type) {
+		case *ast.AssignStmt:
+			for _, l := range x.Lhs {
+				if identObjOf(in, l) == o {
+					n++
+				}
+			}
+		case *ast.IncDecStmt:
+			if identObjOf(in, x.X) == o {
+				n++
+			}
+		}
+		return true
+	})
+	return n
+}
+
+// constStepOf: o is assigned exactly once in body, by `o += K` (or o++) with constant K.
+func constStepOf(in *Interp, body ast.Node, o types.Object) (int64, bool) {
+	if countAssigns(in, body, o) != 1 {
+		return 0, false
+	}
+	var K int64
+	found := false
+	ast.Inspect(body, func(nd ast.Node) bool {
+		switch x := nd.(type) {
+		case *ast.AssignStmt:
+			if x.Tok == token.ADD_ASSIGN && len(x.Lhs) == 1 && identObjOf(in, x.Lhs[0]) == o {
+				if c, ok := in.constInt(x.Rhs[0]); ok {
+					K, found = c.C, true
+				}
+			}
+		case *ast.IncDecStmt:
+			if x.Tok == token.INC && identObjOf(in, x.X) == o {
+				K, found = 1, true
+			}
+		}
+		return true
+	})
+	return K, found
+}
+
+// hypCounter numbers loop hypotheses; badHyps lists the ones that failed.
+var hypCounter int
+var badHyps = map[string]bool{}
+
+// paramOf returns the decoder input parameter of the outermost activation.
+func (in *Interp) paramOf() types.Object {
+	for i := in; i != nil; i = i.parent {
+		if i.param != nil {
+			return i.param
+		}
+	}
+	return nil
 }
 
 func loosen(v Val) Val {
